@@ -106,8 +106,12 @@ def _lm_case(draw, tier, dense=False):
                   st.tuples(st.just(n), st.integers(0, 40), st.integers(0, Tmax))),
         min_size=B, max_size=B))
     idx = draw(st.lists(st.integers(0, T), min_size=B, max_size=B))
+    # how the (T, B) history tensor sits in memory: its own contiguous storage, a row slice of a larger
+    # tensor (non-zero storage offset), or the transpose of a (B, T) tensor (non-contiguous)
+    layout = draw(st.sampled_from(["contiguous", "offset_view", "transposed", "contiguous", "offset_view"]))
     return {"V": V, "sos": sos, "tables": tables, "hist": hist, "idx": idx,
-            "follow": [None if f is None else list(f) for f in follow]}
+            "follow": [None if f is None else list(f) for f in follow], "layout": layout,
+            "junk_rows": draw(st.integers(1, 3))}
 
 
 def _lm_strategy(tier):
@@ -204,6 +208,13 @@ def _lm_check(case):
 
     lm = LookupLanguageModel(V, sos, prob_dicts=_prob_dicts(tables))
     hist = torch.tensor(hist_b, dtype=torch.long).view(B, T).t().contiguous()  # (T, B)
+    layout = case.get("layout", "contiguous")
+    if layout == "offset_view":
+        k = case.get("junk_rows", 1)
+        junk = (torch.arange(k * B, dtype=torch.long).view(k, B) * 7 + 1) % V
+        hist = torch.cat([junk, hist, junk], 0)[k:k + T]
+    elif layout == "transposed":
+        hist = torch.tensor(hist_b, dtype=torch.long).view(B, T).t()
 
     # all positions at once
     full = lm(hist)
@@ -235,7 +246,7 @@ def _lm_check(case):
     got = fresh.calc_full_log_probs_chunked(hist, dict(), 2)
     _compare("reloaded calc_full_log_probs_chunked(chunk_size=2)", got.tolist(), exp)
 
-    classes = ["order_%d" % n, "sos_in_vocab" if 0 <= sos < V else "sos_out_of_vocab"]
+    classes = ["order_%d" % n, "sos_in_vocab" if 0 <= sos < V else "sos_out_of_vocab", "hist_" + layout]
     classes += sorted(t for t in trace if not t.startswith("hit_") or t == "hit_top")
     if T == 0:
         classes.append("empty_history")
